@@ -7,12 +7,45 @@ import MV.Gen.SrcRel
 import MV.Gen.SrcPitch
 import MV.Gen.SrcTonality
 import MV.Gen.SrcOps
+import MV.Gen.SrcRender
 open MV MV.Codec
 
 def showTon (t : Tonality) : String := toString (encTon t)
 def showBool (b : Bool) : String := if b then "1" else "0"
 
+def showRow (r : Row) : String :=
+  s!"({r.pitch} {SExp.ofRat r.offset} {SExp.ofRat r.dur} {SExp.ofRat r.vel} {r.track} {if r.silence then 1 else 0} {if r.cont then 1 else 0})"
+def showRows (rows : List Row) : String := "(" ++ " ".intercalate (rows.map showRow) ++ ")"
+def decLast (l : SExp) (tr : Nat) : Option (Option Row) :=
+  match l.asAtom? with
+  | some "-" => some none
+  | _ => match l.asInt? with
+    | some p => some (some { pitch := p, offset := 0, dur := 1, vel := 66, track := tr, silence := false, cont := false })
+    | none => none
+
 def step : List SExp → String
+  | [.atom "n2p", .atom w, n, c, tr, time, l] =>
+      match decNote n, decChord c, tr.asNat?, time.asRat? with
+      | some n, some c, some tr, some time =>
+          match decLast l tr with
+          | some last =>
+              let r : Res (Row × Option Int) :=
+                if w == "src" then (Src.note_to_pitch n c tr time last).map (fun p => (p.1, p.2.map (·.pitch)))
+                else noteToRow n c tr time (last.map (·.pitch))
+              showRes (fun p => showRow p.1 ++ " " ++ showOptInt p.2) r
+          | none => "bad-args"
+      | _, _, _, _ => "bad-args"
+  | [.atom "m2p", .atom w, m, c, tr, time, l] =>
+      match decMelody m, decChord c, tr.asNat?, time.asRat? with
+      | some m, some c, some tr, some time =>
+          match decLast l tr with
+          | some last =>
+              let r : Res (List Row × Option Int) :=
+                if w == "src" then (Src.melody_to_pitches m c tr time last).map (fun p => (p.1, p.2.map (·.pitch)))
+                else melodyToRows m c tr time (last.map (·.pitch))
+              showRes (fun p => showRows p.1 ++ " " ++ showOptInt p.2) r
+          | none => "bad-args"
+      | _, _, _, _ => "bad-args"
   | [.atom "relup", .atom w, d, l, s] =>
       match d.asInt?, l.asInt?, s.asInts? with
       | some d, some l, some s =>
